@@ -5,7 +5,7 @@ import time
 from vsg import parser
 from vsg.token_map import process_tokens
 
-from .. import docspec, drivers, explore, report
+from .. import corpus, docspec, drivers, explore, report, universe
 from . import common
 
 PROP = "C18"
@@ -20,6 +20,17 @@ def nonempty(dMap):
             if l:
                 out[(b, s)] = l
     return out
+
+
+def map_fingerprint(dMap):
+    """cheap content fingerprint of the index (an in-place edit of one of its lists must not hide behind object identity)"""
+    fp = 0
+    n = 0
+    for d in dMap.values():
+        for l in d.values():
+            n += len(l)
+            fp += sum(l)
+    return fp * 1000003 + n
 
 
 class Mon(drivers.Monitor):
@@ -45,7 +56,7 @@ class Mon(drivers.Monitor):
         oF = ex.oFile
         lAll = oF.lAllObjects
         v = self.verified
-        if v is not None and v[1] is oF.oTokenMap and v[0] == lAll:
+        if v is not None and v[1] is oF.oTokenMap and v[0] == lAll and v[2] == map_fingerprint(oF.oTokenMap.dMap):
             return
         self.index_checks += 1
         ref = nonempty(process_tokens(lAll).dMap)
@@ -54,7 +65,7 @@ class Mon(drivers.Monitor):
             bad = sorted(k for k in set(ref) | set(cur) if ref.get(k) != cur.get(k))
             ex.violation((self.last_mutator or "<parse>", "index_stale", stage), {"seen_by": rule.unique_id, "roles": [":".join(b) for b in bad[:6]]})
             oF.oTokenMap = process_tokens(lAll)  # re-sync so that the next culprit is attributed correctly
-        self.verified = (list(lAll), oF.oTokenMap)
+        self.verified = (list(lAll), oF.oTokenMap, map_fingerprint(oF.oTokenMap.dMap))
 
     def on_toi(self, ex, rule, lToi, stage):
         self.points += 1
@@ -111,7 +122,11 @@ class Mon(drivers.Monitor):
 
 def execute(item):
     mon = Mon()
-    ex = common.run_item(item, [mon], PROP, want_toi=True)
+    if item.get("check_only"):
+        it = dict(item, lines=universe.materialise(item), argv=["-ap"])
+        ex = drivers.d_pipe(it, [mon], want_toi=True, fix=False)
+    else:
+        ex = common.run_item(item, [mon], PROP, want_toi=True)
     r = common.to_result(ex, PROP)
     r.transitions = mon.points
     r.extra["regions"] = mon.regions
@@ -131,12 +146,14 @@ def reproduce(item):
 def main(tier):
     t0 = time.time()
     its = common.pipe_items(tier, KQ, KT, k1=(tier != "quick"))
+    # plain all-phases check runs (no fix in front of them) of every fixture under the default and jcl configurations
+    its += [dict(it, check_only=True, id=it["id"] + "#check") for it in universe.zero_dev(corpus.seed_ids(("fix", "cls")), styles=(None, "jcl"))]
     m = explore.run(its, execute, horizon=60.0, label=PROP)
     return report.finish(
         PROP, tier, "model_checking", [m], t0,
-        "one execution = real apply_rules --fix followed by its check pass; the invariant is evaluated at every return of a rule's _get_tokens_of_interest "
+        "one execution = real apply_rules --fix followed by its check pass (plus plain -ap check runs of every fixture); the invariant is evaluated at every return of a rule's _get_tokens_of_interest "
         "(fix and check stages) and at every vhdlFile.update; transitions = analysis points; non-trivial = executions in which at least one fix changed the token list",
-        ["index recomputation is memoised on (identity sequence of the token list, identity of the index object): re-verified whenever either changed",
+        ["index recomputation is memoised on (identity sequence of the token list, identity of the index object, sum/count fingerprint of the index lists): re-verified whenever any of them changed",
          "rules that override analyze() without _get_tokens_of_interest are observed only through vhdlFile.update"],
         extra_cov={"regions_checked": m.extra.get("regions", 0), "index_recomputations": m.extra.get("index_recomputations", 0),
                    "rules_observed": len(m.extra.get("rules_seen", ())), "splices_checked": m.extra.get("splices", 0), "bound": common.bound_text(tier, KQ, KT)},
